@@ -5,21 +5,22 @@ C28 — Experimental parser is total.
 or panic. Parsing reports success exactly when no error diagnostics were produced, and every
 diagnostic span lies inside the file."
 
-What is proved here (about the models PCV.Model.XParse and PCV.Model.XLexer):
+Models: PCV.Model.XParse (the `ok` loop of parser.Parse) and PCV.Model.XLexer (the lexer main loop,
+byte for byte), mirroring /repo after the fixes de66908c (`ok` comparison), d839c04c (lone
+backslash at EOF) and cb845bb5 (flush of trailing unrecognised bytes).
 
-* the `ok` clause.  `ok_iff_all_below`: the loop at the end of `parser.Parse` returns true iff every
-  diagnostic level is numerically *below* `report.Error`.  With the real constants
-  (ICE=1 < Error=2 < Warning=3 < Remark=4) that is "only ICEs": `C28_ok_full` (ok ⇔ no error and no
-  ICE diagnostic) is REFUTED (`C28_ok_refuted`: a single warning gives ok=false; `ok_true_on_ice`:
-  a lone ICE gives ok=true).  `C28_ok_partial`: on reports that contain only errors — in particular
-  the empty report — `ok` is right.  `ok_fixed_iff_no_error`: with `<=` the full statement holds.
-* the lexer half of totality.  `lexer_total_full` (the lexer never ICEs) is REFUTED by the input
-  `"\`; `lexer_never_stalls`: for every input the lexer model ends in one of three ways — done,
-  prelude abort, or a panic inside an iteration of the main loop — never in `mustProgress`, never out
-  of fuel; `push_never_overflows` and `fuse_never_panics`: the `Stream.Push` / `token.Fuse` guards are
-  unreachable; `lexer_ice_needs_backslash`: an ICE needs a `\` byte in the file;
-  `lexer_total_partial`: EVERY valid UTF-8 file without a backslash (that does not trip the UTF-16
-  heuristics) is lexed to completion.
+* the `ok` clause, in full: `C28_ok` — for EVERY list of diagnostic levels, Parse's `ok` is true
+  exactly when no diagnostic is an error or an ICE (any numbering with ICE < Error < Warning <
+  Remark; `C28_ok_go` for the constants of the tree).
+* the lexer half of totality, in full: `lexer_total` — NO input makes the lexer ICE (for every
+  Unicode class table with XID_Start ⊆ XID_Continue): no panic inside an iteration, `mustProgress`
+  never fires, the model never runs out of fuel, `Stream.Push` never overflows
+  (`push_never_overflows`) and `token.Fuse` never panics (`fuse_never_panics`).
+  `lexer_done_iff`: the lexer completes iff the prelude lets the file through, i.e. iff the file is
+  empty or valid UTF-8 that does not trip the UTF-16 heuristics.
+* documentation of the defects that were fixed: `C28_ok_fullPrefix` with `C28_ok_refutedPrefix`
+  (the loop `>= report.Error`: a single warning gave ok=false, a lone ICE ok=true), and
+  `strContentPrefix_panics` (a string ending in `\` at EOF panicked in errtoken.InvalidEscape).
 * The parser proper (recursive descent + legalisation) is not modelled: its ICEs, escaping panics
   and out-of-file spans are only observed, by the `xparse` engine's oracle on every generated input.
 -/
@@ -30,8 +31,8 @@ open PCV.XParse PCV.XLexer PCV.TokenStream
 
 /-! ## the `ok` clause -/
 
-/-- The loop as written: `ok` iff every level is strictly below `Error`. -/
-theorem ok_iff_all_below (E : Int) (ls : List Int) : okLoop E ls = true ↔ ∀ l ∈ ls, l < E := by
+/-- The loop as written: `ok` iff every level is strictly above `Error` (less severe). -/
+theorem ok_iff_all_above (E : Int) (ls : List Int) : okLoop E ls = true ↔ ∀ l ∈ ls, E < l := by
   induction ls with
   | nil => simp [okLoop]
   | cons l ls ih =>
@@ -46,60 +47,18 @@ theorem ok_iff_all_below (E : Int) (ls : List Int) : okLoop E ls = true ↔ ∀ 
 def ValidLevels (L : Levels) (ls : List Int) : Prop :=
   ∀ l ∈ ls, l = L.ice ∨ l = L.err ∨ l = L.warn ∨ l = L.remark
 
-/-- C28, `ok` clause, at full strength: for every list of diagnostic levels, Parse's `ok` is true
-    exactly when no diagnostic is an error (or worse, an ICE). -/
-def C28_ok_full : Prop :=
-  ∀ ls : List Int, ValidLevels goLevels ls → (okLoop goLevels.err ls = true ↔ noErrors goLevels ls = true)
-
-/-- A file that produces a single warning: `ok = false` although there is no error. -/
-theorem C28_ok_refuted : ¬ C28_ok_full := by
-  intro h
-  have := h [3] (by simp [ValidLevels, goLevels])
-  simp [okLoop, noErrors, goLevels] at this
-
-/-- ... and the converse defect: a lone ICE diagnostic gives `ok = true`. -/
-theorem ok_true_on_ice : okLoop goLevels.err [goLevels.ice] = true ∧ noErrors goLevels [goLevels.ice] = false := by
-  decide
-
-/-- exact behaviour with the real constants: `ok` iff every diagnostic is an ICE -/
-theorem ok_iff_only_ice (ls : List Int) (hv : ValidLevels goLevels ls) :
-    okLoop goLevels.err ls = true ↔ ∀ l ∈ ls, l = goLevels.ice := by
-  rw [ok_iff_all_below]
-  constructor
-  · intro h l hl
-    have h1 := h l hl
-    have h2 := hv l hl
-    simp only [goLevels] at h1 h2 ⊢
-    omega
-  · intro h l hl
-    rw [h l hl]; decide
-
-/-- **Partial theorem.** On reports without ICEs, warnings and remarks (only errors, or nothing at
-    all) the `ok` clause holds. -/
-theorem C28_ok_partial (ls : List Int) (hv : ∀ l ∈ ls, l = goLevels.err) :
-    okLoop goLevels.err ls = true ↔ noErrors goLevels ls = true := by
-  rw [ok_iff_all_below]
-  simp only [noErrors, List.all_eq_true, Bool.and_eq_true, bne_iff_ne, ne_eq]
-  constructor
-  · intro h l hl
-    have := h l hl; have := hv l hl; omega
-  · intro h l hl
-    have := (h l hl).1; have := hv l hl; contradiction
-
-example : okLoop goLevels.err [] = true ∧ noErrors goLevels [] = true := by decide
-example : okLoop goLevels.err [2, 2] = false ∧ noErrors goLevels [2, 2] = false := by decide
-
-/-- With the comparison turned around (`d.Level() <= report.Error`) the full statement holds, for
-    any numbering in which ICE < Error < Warning < Remark. -/
-theorem ok_fixed_iff_no_error (L : Levels) (hL : L.ice < L.err ∧ L.err < L.warn ∧ L.warn < L.remark)
+/-- **C28, `ok` clause, at full strength.** For every list of diagnostic levels, Parse's `ok` is
+    true exactly when no diagnostic is an error or an ICE — for any numbering of the levels in which
+    ICE < Error < Warning < Remark. -/
+theorem C28_ok (L : Levels) (hL : L.ice < L.err ∧ L.err < L.warn ∧ L.warn < L.remark)
     (ls : List Int) (hv : ValidLevels L ls) :
-    okLoopFixed L.err ls = true ↔ noErrors L ls = true := by
+    okLoop L.err ls = true ↔ noErrors L ls = true := by
   induction ls with
-  | nil => simp [okLoopFixed, noErrors]
+  | nil => simp [okLoop, noErrors]
   | cons l ls ih =>
     have hv' : ValidLevels L ls := fun x hx => hv x (by simp [hx])
     have hl := hv l (by simp)
-    simp only [okLoopFixed, noErrors, List.all_cons, Bool.and_eq_true, bne_iff_ne, ne_eq]
+    simp only [okLoop, noErrors, List.all_cons, Bool.and_eq_true, bne_iff_ne, ne_eq]
     split
     · next hle =>
       simp only [Bool.false_eq_true, false_iff, not_and]
@@ -114,39 +73,66 @@ theorem ok_fixed_iff_no_error (L : Levels) (hL : L.ice < L.err ∧ L.err < L.war
       · intro h; exact ⟨⟨by omega, by omega⟩, h⟩
       · intro h; exact h.2
 
+/-- the same for the constants of the tree (ICE=1, Error=2, Warning=3, Remark=4) -/
+theorem C28_ok_go (ls : List Int) (hv : ValidLevels goLevels ls) :
+    okLoop goLevels.err ls = true ↔ noErrors goLevels ls = true :=
+  C28_ok goLevels (by decide) ls hv
+
+example : okLoop goLevels.err [3, 4] = true ∧ okLoop goLevels.err [3, 2] = false ∧
+    okLoop goLevels.err [1] = false := by decide
+
+/-! ### the loop before de66908c (documentation) -/
+
+/-- the `ok` clause for the loop as it was (`d.Level() >= report.Error`) -/
+def C28_ok_fullPrefix : Prop :=
+  ∀ ls : List Int, ValidLevels goLevels ls →
+    (okLoopPrefix goLevels.err ls = true ↔ noErrors goLevels ls = true)
+
+/-- a file that produced a single warning got `ok = false` -/
+theorem C28_ok_refutedPrefix : ¬ C28_ok_fullPrefix := by
+  intro h
+  have := h [3] (by simp [ValidLevels, goLevels])
+  simp [okLoopPrefix, noErrors, goLevels] at this
+
+/-- ... and a lone ICE diagnostic got `ok = true` -/
+theorem ok_true_on_icePrefix :
+    okLoopPrefix goLevels.err [goLevels.ice] = true ∧ noErrors goLevels [goLevels.ice] = false := by
+  decide
+
 /-! ## the lexer half of "finishes without an ICE" -/
 
-/-- C28, totality clause restricted to the lexer: no input makes the lexer panic. -/
-def lexer_total_full : Prop := ∀ E : Env, ClsOK E → (lex E).status ≠ .icePanic
-
-/-- `"\` : `errtoken.InvalidEscape.Diagnose` indexes `text[1]` of the one-byte escape `\`. -/
-theorem lexer_total_refuted : ¬ lexer_total_full := by
-  intro h
-  have hc : ClsOK (envA [34, 92]) := clsOK_ascii _
-  exact h _ hc (by decide +kernel)
-
-/-- **The lexer never stalls.** For every input and every consistent class table the run ends as
-    `done`, `abort` (prelude) or `icePanic`; the `mustProgress` check never fires and the model
-    never runs out of fuel. -/
+/-- **The lexer never ICEs and never stalls.** For every input and every consistent class table
+    the run ends as `done` or as `abort` (the prelude refused the file). -/
 theorem lexer_never_stalls (E : Env) (hcls : ClsOK E) :
-    (lex E).status = .done ∨ (lex E).status = .abort ∨ (lex E).status = .icePanic := by
-  rcases lex_trichotomy E hcls with ⟨_, ha⟩ | ⟨_, _, _, _, hi⟩ | ⟨_, _, _, _, hd⟩
-  · exact Or.inr (Or.inl ha)
-  · exact Or.inr (Or.inr hi)
+    (lex E).status = .done ∨ (lex E).status = .abort := by
+  rcases lex_dichotomy E hcls with ⟨_, ha⟩ | ⟨_, _, hd⟩
+  · exact Or.inr ha
   · exact Or.inl hd
 
-/-- `Stream.PushKeyword` never panics with "overflowed backing text": after the main loop and
-    after `fuseBraces` the overflow flag is clear. -/
+/-- **C28, totality clause restricted to the lexer, at full strength**: no input makes the lexer
+    panic — not in an iteration, not in `mustProgress`, not in `Stream.Push`, not in `token.Fuse`. -/
+theorem lexer_total (E : Env) (hcls : ClsOK E) :
+    (lex E).status ≠ .icePanic ∧ (lex E).status ≠ .iceProgress ∧ (lex E).status ≠ .fuel := by
+  rcases lexer_never_stalls E hcls with h | h <;> rw [h] <;> simp
+
+/-- the lexer completes exactly on the files the prelude lets through: the empty file and valid
+    UTF-8 that does not trip the UTF-16 heuristics -/
+theorem lexer_done_iff (E : Env) (hcls : ClsOK E) :
+    (lex E).status = .done ↔ (E.text = [] ∨ (looksUtf16 E.text = false ∧ V E.text)) := by
+  rw [← prelude_passes_iff]
+  rcases lex_dichotomy E hcls with ⟨hf, ha⟩ | ⟨s0, hp, hd⟩
+  · rw [ha, hf]; simp
+  · rw [hd, hp]; simp
+
+/-- `Stream.PushKeyword` never panics with "overflowed backing text" -/
 theorem push_never_overflows (E : Env) (hcls : ClsOK E) (s0 s1 : LS)
     (hp : prelude E {} = (s0, true)) (hm : mainLoop E (E.n + 1) (-1) s0 = (s1, .done)) :
-    s1.overflow = false ∧ (fuseBraces E.n s1).1.overflow = false := by
-  rcases lex_cases E hcls with ⟨hf, _, _⟩ | ⟨s0', s1', hp', hm', _⟩ | ⟨s0', s1', hp', hm', hpost, _⟩
+    (flush E.n s1).overflow = false ∧ (fuseBraces E.n (flush E.n s1)).1.overflow = false := by
+  rcases lex_cases E hcls with ⟨hf, _, _⟩ | ⟨s0', s1', hp', hm', hpost, _⟩
   · rw [hp] at hf; simp at hf
   · rw [hp] at hp'; simp only [Prod.mk.injEq, and_true] at hp'; subst hp'
-    rw [hm] at hm'; simp at hm'
-  · rw [hp] at hp'; simp only [Prod.mk.injEq, and_true] at hp'; subst hp'
     rw [hm] at hm'; simp only [Prod.mk.injEq, and_true] at hm'; subst hm'
-    exact ⟨hpost.nov, (fuseBraces_post E.n s1 hpost).1.nov⟩
+    exact ⟨hpost.nov, (fuseBraces_post E.n _ hpost).1.nov⟩
 
 /-- `token.Fuse` never panics: after a completed main loop both fuse passes (brackets, implicit
     string concatenation) only ever join existing, distinct, still-leaf tokens, in order. -/
@@ -156,52 +142,32 @@ theorem fuse_never_panics (n : Nat) (s1 : LS) (h : Post n s1) :
       (strRuns (fuseAll (fuseBraces n s1).1.toks.reverse (fuseBraces n s1).2).1 1 none)).2 = false :=
   no_fuse_panic n s1 h
 
-/-- a lexer ICE is exactly a panic inside an iteration of the main loop -/
-theorem lexer_ice_iff (E : Env) (hcls : ClsOK E) :
-    (lex E).status = .icePanic ↔
-      ∃ s0 s1, prelude E {} = (s0, true) ∧ mainLoop E (E.n + 1) (-1) s0 = (s1, .icePanic) := by
-  constructor
-  · intro h
-    rcases lex_trichotomy E hcls with ⟨_, ha⟩ | ⟨s0, s1, hp, hm, _⟩ | ⟨_, _, _, _, hd⟩
-    · rw [ha] at h; cases h
-    · exact ⟨s0, s1, hp, hm⟩
-    · rw [hd] at h; cases h
-  · rintro ⟨s0, s1, hp, hm⟩
-    rcases lex_trichotomy E hcls with ⟨hf, _⟩ | ⟨_, _, _, _, hi⟩ | ⟨s0', s1', hp', hm', _⟩
-    · rw [hp] at hf; simp at hf
-    · exact hi
-    · rw [hp] at hp'; simp only [Prod.mk.injEq, and_true] at hp'; subst hp'
-      rw [hm] at hm'; simp at hm'
+/-- no iteration of the main loop panics -/
+theorem iteration_never_panics (E : Env) (s : LS) : (iter E s).2 = false := iter_noice E s
 
-/-- **Partial theorem.** A lexer ICE needs a backslash in the file (the string-escape panic). -/
-theorem lexer_ice_needs_backslash (E : Env) (hcls : ClsOK E) (h : (lex E).status = .icePanic) :
-    (92 : UInt8) ∈ E.text := by
-  obtain ⟨s0, s1, _, hm⟩ := (lexer_ice_iff E hcls).mp h
-  exact mainLoop_ice E _ _ _ (by rw [hm])
+/-- non-vacuity: files that lex to completion, with and without a trailing backslash -/
+example : (lex (envA [109, 101, 115, 115, 97, 103, 101, 32, 77, 32, 123, 125, 10])).status = .done ∧
+    (lex (envA [34, 92])).status = .done := by
+  decide +kernel
 
-/-- **Partial theorem, input level.** Every valid UTF-8 file that contains no backslash and does
-    not trip the UTF-16 heuristics is lexed to completion — no ICE, no early exit — whatever the
-    Unicode class tables say (as long as XID_Start ⊆ XID_Continue). -/
-theorem lexer_total_partial (E : Env) (hcls : ClsOK E) (hv : V E.text)
-    (h16 : looksUtf16 E.text = false) (hbs : (92 : UInt8) ∉ E.text) : (lex E).status = .done :=
-  lex_done_of_no_backslash E hcls hv h16 hbs
+/-! ### the string-escape panic before d839c04c (documentation) -/
 
-/-- non-vacuity of the positive side: a backslash-free file that lexes to completion -/
-example : (lex (envA [109, 101, 115, 115, 97, 103, 101, 32, 77, 32, 123, 125, 10])).status = .done := by
+/-- on `"\` the old `lexStringContent` panicked (a lexer ICE), the current one does not -/
+theorem strContentPrefix_panics :
+    (strContentPrefix (envA [34, 92]) 1).2 = true ∧ (strContent (envA [34, 92]) 1).2 = false := by
   decide +kernel
 
 end PCV.Props.C28
 
-#print axioms PCV.Props.C28.ok_iff_all_below
-#print axioms PCV.Props.C28.C28_ok_refuted
-#print axioms PCV.Props.C28.ok_true_on_ice
-#print axioms PCV.Props.C28.ok_iff_only_ice
-#print axioms PCV.Props.C28.C28_ok_partial
-#print axioms PCV.Props.C28.ok_fixed_iff_no_error
-#print axioms PCV.Props.C28.lexer_total_refuted
+#print axioms PCV.Props.C28.ok_iff_all_above
+#print axioms PCV.Props.C28.C28_ok
+#print axioms PCV.Props.C28.C28_ok_go
+#print axioms PCV.Props.C28.C28_ok_refutedPrefix
+#print axioms PCV.Props.C28.ok_true_on_icePrefix
 #print axioms PCV.Props.C28.lexer_never_stalls
+#print axioms PCV.Props.C28.lexer_total
+#print axioms PCV.Props.C28.lexer_done_iff
 #print axioms PCV.Props.C28.push_never_overflows
 #print axioms PCV.Props.C28.fuse_never_panics
-#print axioms PCV.Props.C28.lexer_ice_iff
-#print axioms PCV.Props.C28.lexer_ice_needs_backslash
-#print axioms PCV.Props.C28.lexer_total_partial
+#print axioms PCV.Props.C28.iteration_never_panics
+#print axioms PCV.Props.C28.strContentPrefix_panics
